@@ -189,6 +189,7 @@ func propC11Free(ch core.Chooser, st *core.Stats) error {
 	env := NewEnv(kind)
 	defer env.Cleanup()
 	cfg := dbx.Config{SegSize: uint32(core.PickInt(ch, "segsize", []int{2048, 4096, 1 << 20})), MinSeg: 520, Frag: 0.1}
+	cfg.SyncWrites = core.Pct(ch, "syncwrites", 25)
 	opts := cfg.Options(env.FS)
 	opts.BackgroundCompactionInterval = time.Duration(ch.Int("bg_compact_ms", 0, 2)) * time.Millisecond
 	var db *pogreb.DB
